@@ -147,7 +147,15 @@ def observe(rec, oids):
 
 
 def coherence(rec):
-    """The property's coherence conditions, through the public API only."""
+    """The property's coherence conditions, through the public API only.  An accessor that raises on a record the API
+    itself produced is an incoherence too (not a reason for the oracle to give up)."""
+    try:
+        return _coherence(rec)
+    except Exception as e:  # noqa
+        return ["a read-only accessor of the record failed with %s: its views no longer agree" % exc_name(e)]
+
+
+def _coherence(rec):
     bad = []
     n = len(rec)
     occupied = []
